@@ -228,3 +228,71 @@ Theorem C14_bytes_dump_ok_closed_form : forall v : pv,
   leaves_ok v = true -> (len (dump_body v) <? 2 ^ 63)%N = true -> dump_ok v = true.
 Proof. exact dump_ok_closed_form. Qed.
 Print Assumptions C14_bytes_dump_ok_closed_form.
+
+(** * The pickler side: the persistent id of the class type(None) (Pickle/PicklerHook.v; after seeded C14-10) *)
+From DD Require Import Pickle.PicklerHook Pickle.PicklerHookProofs.
+
+(* _RestrictedPickler.persistent_id claims the class type(None), under the id "<<NoneType>>", and nothing else *)
+Theorem C14_persistent_id_only_nonetype : forall (v : pv) (pid : pystr),
+  persistent_id v = Some pid <-> v = PNoneType /\ pid = NONE_TYPE_PID.
+Proof. exact persistent_id_only_nonetype. Qed.
+Print Assumptions C14_persistent_id_only_nonetype.
+
+(* pickle_dump - the pickler that asks this hook first for EVERY object, as CPython's save() does - writes exactly the
+   canonical encoding the theorems above are about: they are theorems about pickle_dump *)
+Theorem C14_pickle_dump_is_canonical_encoding : forall v : pv, pickle_dump v = enc_prog v.
+Proof. exact pickle_dump_is_enc_prog. Qed.
+Print Assumptions C14_pickle_dump_is_canonical_encoding.
+
+(* dump, then load, is the identity on every payload that holds the class type(None) ANYWHERE - as a plain value of an
+   added / removed item, as new_value / old_value, inside a list, tuple, dict value, Opcode value list or SetOrdered at
+   any depth, with or without a type_changes report next to it (no hypothesis on which categories the payload has) *)
+Theorem C14_nonetype_anywhere_roundtrip : forall (w : world) (d : pv),
+  calls_ok w -> types_ok w d -> wfp d = true -> mentions_nonetype d = true ->
+  load w (pickle_dump d) = Some d.
+Proof. exact nonetype_anywhere_roundtrip. Qed.
+Print Assumptions C14_nonetype_anywhere_roundtrip.
+
+(* the same, position by position: [plug c PNoneType] = the class in the hole of the one-hole payload c; the positions
+   are all there are (every payload that mentions the class is such a plug), and the class asks nothing of the
+   allow-list: the payload needs the same class objects as with the value None in its place *)
+Theorem C14_nonetype_at_any_position_roundtrip : forall (w : world) (c : pctx),
+  calls_ok w -> types_ok w (plug c PNoneType) -> wfp (plug c PNoneType) = true ->
+  load w (pickle_dump (plug c PNoneType)) = Some (plug c PNoneType).
+Proof. exact nonetype_at_any_position_roundtrip. Qed.
+Print Assumptions C14_nonetype_at_any_position_roundtrip.
+
+Theorem C14_nonetype_positions_complete : forall v : pv,
+  mentions_nonetype v = true <-> exists c, v = plug c PNoneType.
+Proof. intro v. split; [apply mentions_is_plug | intros [c ->]; apply mentions_plug]. Qed.
+Print Assumptions C14_nonetype_positions_complete.
+
+Theorem C14_nonetype_needs_no_allow_list_entry : forall c : pctx,
+  types_of (plug c PNoneType) = types_of (plug c (PAtom ANone)).
+Proof. exact types_of_plug_nonetype. Qed.
+Print Assumptions C14_nonetype_needs_no_allow_list_entry.
+
+(* a pickler WITHOUT the hook (pickle.Pickler) writes the very same dump as long as the class does not occur ... *)
+Theorem C14_plain_pickler_same_dump : forall v : pv, mentions_nonetype v = false -> dump_with no_hook v = pickle_dump v.
+Proof. exact plain_pickler_same_dump. Qed.
+Print Assumptions C14_plain_pickler_same_dump.
+
+(* ... and, when it occurs anywhere, a dump (the class by reduction: builtins.type applied to (None,)) that the restricted
+   unpickler refuses with ForbiddenModule builtins.type, in every process whose allow-list lacks builtins.type: the
+   choice of the pickler must not depend on which report categories the payload has *)
+Theorem C14_plain_pickler_dump_refused : forall (w : world) (d : pv),
+  ~ allowed w BUILTINS_ TYPE_ -> calls_ok w -> types_ok w d -> wfp d = true -> mentions_nonetype d = true ->
+  fst (vm_run w (dump_with no_hook d)) = Err (Forbidden BUILTINS_ TYPE_) /\ load w (dump_with no_hook d) = None.
+Proof. intros w d Hna Hco. exact (plain_pickler_dump_refused w Hna Hco d). Qed.
+Print Assumptions C14_plain_pickler_dump_refused.
+
+Theorem C14_plain_pickler_loads_iff : forall (w : world) (d : pv),
+  ~ allowed w BUILTINS_ TYPE_ -> calls_ok w -> types_ok w d -> wfp d = true ->
+  (load w (dump_with no_hook d) = Some d <-> mentions_nonetype d = false).
+Proof. intros w d Hna Hco. exact (plain_pickler_loads_iff w Hna Hco d). Qed.
+Print Assumptions C14_plain_pickler_loads_iff.
+
+(* the hypothesis holds of the default process (the built-in allow-list does not name builtins.type) *)
+Theorem C14_default_process_forbids_builtins_type : ~ allowed default_world BUILTINS_ TYPE_.
+Proof. exact default_forbids_type. Qed.
+Print Assumptions C14_default_process_forbids_builtins_type.
